@@ -48,9 +48,11 @@ def forwarding(ctx, rule, only=None):
                    ok, fact=fact, why='wells are given a different operation or different arguments than requested',
                    key=f"forwarding PlateSlicer.{name}")
             recv = c.func.value
+            r0 = strip_refs(recv)
+            if isinstance(r0, ast.Call) and getattr(r0.func, 'id', '') in ('copy', 'deepcopy') and r0.args:
+                r0 = strip_refs(r0.args[0])         # a (shallow) copy of the slice keeps its selection
             ctx.ob(rule, fi, s.lineno, f"PlateSlicer.{name} applies the function to its own selection",
-                   isinstance(strip_refs(recv), (Param, Ref)) and not isinstance(strip_refs(recv), ast.Subscript) and
-                   not any(isinstance(n, ast.Subscript) for n in walk_no_sym(recv) if not isinstance(recv, Sym)),
+                   isinstance(r0, Param) and r0.name == fi.param_names(drop_self=False)[0],
                    fact=f"receiver {show(recv, 30)}", why='the operation is applied to other wells than the addressed ones',
                    key=f"apply receiver PlateSlicer.{name}", nontrivial=False)
         # Plate.<name> delegates to the whole-plate slice
